@@ -26,15 +26,24 @@ const (
 	verifRuleRewriteCNAME
 	verifRuleHosts
 	verifRuleN
+	// kinds of the extended grammar (thorough tier)
 )
 
-var verifRuleText = [verifRuleN]string{
+const (
+	verifRuleBlockOnlyAAAA = verifRuleN     // ||example.org^$dnstype=AAAA
+	verifRuleRewriteRcode  = verifRuleN + 1 // $dnsrewrite=REFUSED
+	verifRuleExtN          = verifRuleN + 2
+)
+
+var verifRuleText = [verifRuleExtN]string{
 	"||unrelated.example^\n",
 	"||example.org^\n",
 	"@@||example.org^\n",
 	"||example.org^$dnsrewrite=203.0.113.5\n",
 	"||example.org^$dnsrewrite=NOERROR;CNAME;cname.example\n",
 	"0.0.0.0 example.org\n",
+	"||example.org^$dnstype=AAAA\n",
+	"||example.org^$dnsrewrite=REFUSED\n",
 }
 
 type verifErrColl2 struct{}
@@ -75,10 +84,23 @@ func verifHashFilter(id internal.ID, listed bool) *hashprefix.Filter {
 //
 //verif:harness name=H02a-precedence tier=quick bounds="custom rules, two shared lists and one blocked-service list, each holding for the queried host one of {nothing, block, allow, $dnsrewrite to IP, $dnsrewrite to CNAME, hosts-style block} (service list: nothing/block); safe-browsing, adult and newly-registered hash filters each listing the host or not; question type A; real urlfilter engine" reach=rewrite,blocked,allowed,custom-allow,safe-browsing,adult,new-reg,none maxpaths=200000
 //verif:assume rule texts come from the grammar above ($important, $badfilter, $client, $ctag outside the grammar); safe-search filters not configured
-func VerifC02Precedence() { verifC02Precedence(true) }
+func VerifC02Precedence() { verifC02Precedence(false) }
 
-func verifC02Precedence(_ bool) {
-	kc, k1, k2 := verifChoice(verifRuleN), verifChoice(verifRuleN), verifChoice(verifRuleN)
+// VerifC02Precedence2 is the thorough variant: question types A and AAAA and two more
+// rule kinds ($dnstype-restricted block, $dnsrewrite to an rcode).
+//
+//verif:harness name=H02a-precedence2 tier=thorough bounds="as H02a-precedence with question type A or AAAA and the rule kinds $dnstype=AAAA block and $dnsrewrite=REFUSED in addition" reach=rewrite,blocked,allowed,custom-allow,safe-browsing,adult,new-reg,none,typed-rule-skipped maxpaths=3000000
+//verif:assume rule texts come from the grammar above ($important, $badfilter, $client, $ctag outside the grammar); safe-search filters not configured
+func VerifC02Precedence2() { verifC02Precedence(true) }
+
+func verifC02Precedence(ext bool) {
+	nk := verifRuleN
+	qt := uint16(dns.TypeA)
+	if ext {
+		nk = verifRuleExtN
+		qt = []uint16{dns.TypeA, dns.TypeAAAA}[verifChoice(2)]
+	}
+	kc, k1, k2 := verifChoice(nk), verifChoice(nk), verifChoice(nk)
 	ks := verifChoice(2) // service list: none / block
 	sb, adult, newReg := verifChoice(2) == 1, verifChoice(2) == 1, verifChoice(2) == 1
 
@@ -108,9 +130,9 @@ func verifC02Precedence(_ bool) {
 	})
 	verifAssume(cerr == nil)
 	req := &dns.Msg{}
-	req.SetQuestion("example.org.", dns.TypeA)
+	req.SetQuestion("example.org.", qt)
 	r, ferr := f.FilterRequest(context.Background(), &internal.Request{
-		DNS: req, Messages: msgs, RemoteIP: netip.MustParseAddr("198.51.100.7"), Host: "example.org", QType: dns.TypeA, QClass: dns.ClassINET,
+		DNS: req, Messages: msgs, RemoteIP: netip.MustParseAddr("198.51.100.7"), Host: "example.org", QType: qt, QClass: dns.ClassINET,
 	})
 	verifAssert("no-error", ferr == nil)
 
@@ -121,7 +143,9 @@ func verifC02Precedence(_ bool) {
 	decided := false
 	// 1. rewrites: custom first, then lists in order
 	for i, k := range kinds {
-		if k == verifRuleRewriteIP {
+		if k == verifRuleRewriteIP || k == verifRuleRewriteRcode {
+			// a rewrite wins for every question type (an A value leaves an AAAA
+			// question with an empty NOERROR answer)
 			wantKind, wantList, decided = "modresp", ids[i], true
 			break
 		} else if k == verifRuleRewriteCNAME {
@@ -136,7 +160,10 @@ func verifC02Precedence(_ bool) {
 			if k == verifRuleAllow && allowBy < 0 {
 				allowBy = i
 			}
-			if (k == verifRuleBlock || k == verifRuleHosts) && blockBy < 0 {
+			if k == verifRuleBlockOnlyAAAA && qt != dns.TypeAAAA {
+				verifReach("typed-rule-skipped")
+			}
+			if (k == verifRuleBlock || k == verifRuleHosts || (k == verifRuleBlockOnlyAAAA && qt == dns.TypeAAAA)) && blockBy < 0 {
 				blockBy = i
 			}
 		}
